@@ -8,13 +8,16 @@ package main
 // empty) and independent of the cursor arithmetic.
 
 import (
+	"bufio"
 	"fmt"
+	"net"
 	"os"
 	"runtime"
 	"strings"
 	"sync"
 	"sync/atomic"
 	"testing"
+	"time"
 
 	"pgregory.net/rapid"
 )
@@ -173,7 +176,7 @@ func c05Run(ops []c05Op, naddr int) (res c05Result, fail string) {
 }
 
 func TestC05(t *testing.T) {
-	V.Rule("unit: add/remove/dispatch histories on the round-robin pool with recording doubles - exhaustive for all sequences up to length 6 (thorough: 7) over 4 addresses (never adding a present address; removing an absent one allowed), rapid state-machine histories up to 400 steps over 5 addresses with dispatch bursts, and racing plans (dispatch goroutines vs add/remove goroutines, logical clock). non-trivial = history with a segment of k>=2 backends and >=k+1 dispatches that follows a removal; distinct by op string / plan")
+	V.Rule("unit: add/remove/dispatch histories on the round-robin pool with recording doubles - exhaustive for all sequences up to length 6 (thorough: 7) over 4 addresses (never adding a present address; removing an absent one allowed), rapid state-machine histories up to 400 steps over 5 addresses with dispatch bursts, histories up to 40 steps over the real UDP/TCP backend objects (one local address, receptions observed at harness sockets, closed-socket check on removal), and racing plans (dispatch goroutines vs add/remove goroutines, logical clock). non-trivial = history with a segment of k>=2 backends and >=k+1 dispatches that follows a removal; distinct by op string / plan")
 	V.Assume("across a membership change the property fixes nothing about where the rotation resumes, so the oracle does not either")
 	V.Require("segment after removal", "dispatch on empty pool", "remove absent address")
 
@@ -423,7 +426,162 @@ func TestC05(t *testing.T) {
 		}
 	})
 
+	c05Real(t)
 	c05Lab(t)
+}
+
+// c05Real: the same add / remove / dispatch histories over the product's real
+// UDP and TCP backend objects (NewUDPBackend / NewTCPBackend as the
+// configuration path creates them, all with the same local address), observed
+// at harness sockets: what a dispatch reaches, and that a removed backend's
+// socket is closed while those of the remaining backends keep working.
+func c05Real(t *testing.T) {
+	if os.Getenv("VERIF_RACE") != "" {
+		return
+	}
+	V.Require("real sockets: dispatch after a removal", "real sockets: backend added after a removal", "real sockets: tcp backend")
+	n := labReserve()
+	hub := newLabHub()
+	const naddr = 5
+	type target struct {
+		proto string
+		ip    string
+		ep    *labEP
+	}
+	var targets []target
+	for i := 0; i < naddr; i++ {
+		proto := "udp"
+		if i == 3 {
+			proto = "tcp"
+		}
+		ip := n.ip(210, 1+i)
+		var ep *labEP
+		var err error
+		if proto == "udp" {
+			ep, err = hub.udpEP("backend", ip, 5080)
+		} else {
+			ep, err = hub.tcpEP("backend", ip, 5080)
+		}
+		if err != nil {
+			V.HarnessError(t, "endpoint: %v", err)
+		}
+		targets = append(targets, target{proto, ip, ep})
+	}
+	local := n.ip(210, 100) + ":0"
+	req, err := ParseMessage(bufio.NewReader(strings.NewReader("OPTIONS sip:svc.test SIP/2.0\r\nVia: SIP/2.0/UDP 127.0.0.9:9;branch=z9hG4bKc05\r\nCall-ID: c05real\r\nCSeq: 1 OPTIONS\r\nContent-Length: 0\r\n\r\n")))
+	if err != nil {
+		V.HarnessError(t, "%v", err)
+	}
+	rcheck(t, "real-sockets", V.N(120, 1500), func(rt *rapid.T) {
+		rb := NewRoundRobinBackend()
+		defer rb.Close()
+		cur := map[int]Backend{}
+		var seg []int
+		var hist []string
+		removed, addedAfterRemoval := false, false
+		steps := rapid.IntRange(1, 40).Draw(rt, "steps")
+		for i := 0; i < steps; i++ {
+			op := rapid.IntRange(0, 5).Draw(rt, "op")
+			a := rapid.IntRange(0, naddr-1).Draw(rt, "addr")
+			switch {
+			case op == 0 || (op <= 2 && len(cur) == 0): // add (never a present address)
+				if _, present := cur[a]; present {
+					continue
+				}
+				tg := targets[a]
+				var b Backend
+				var err error
+				if tg.proto == "udp" {
+					b, err = NewUDPBackend(local, fmt.Sprintf("%s:5080", tg.ip))
+				} else {
+					b, err = NewTCPBackend(local, fmt.Sprintf("%s:5080", tg.ip), func(net.Conn) {})
+					V.Class("real sockets: tcp backend")
+				}
+				if err != nil {
+					failf(rt, "step %d of %v: creating the %s backend %s:5080 (local address %s) failed: %v", i+1, hist, tg.proto, tg.ip, local, err)
+				}
+				rb.AddBackend(b)
+				cur[a] = b
+				seg = nil
+				hist = append(hist, fmt.Sprintf("+%d", a))
+				if removed {
+					addedAfterRemoval = true
+				}
+			case op == 1: // remove (absent addresses too)
+				b, present := cur[a]
+				rb.RemoveBackend(fmt.Sprintf("%s:5080", targets[a].ip))
+				hist = append(hist, fmt.Sprintf("-%d", a))
+				if !present {
+					continue
+				}
+				delete(cur, a)
+				seg = nil
+				removed = true
+				if targets[a].proto == "udp" {
+					if err := b.Send(req); err == nil {
+						failf(rt, "step %d of %v: backend %s left the rotation but its socket still sends: it was not closed", i+1, hist, targets[a].ip)
+					}
+				}
+			default: // dispatch
+				hub.drain()
+				hist = append(hist, ".")
+				V.Eval()
+				err := rb.Send(req)
+				if len(cur) == 0 {
+					if err == nil {
+						failf(rt, "step %d of %v: dispatch with no backend registered reported success", i+1, hist)
+					}
+					continue
+				}
+				if err != nil {
+					failf(rt, "step %d of %v: dispatch failed with %v although %d backends are registered", i+1, hist, err, len(cur))
+				}
+				var rx labRx
+				for {
+					r, ok := hub.waitOne(20 * time.Second)
+					if !ok {
+						failf(rt, "step %d of %v: the dispatch reported success but nothing arrived at any backend address within 20 s", i+1, hist)
+					}
+					if r.msg != nil && !r.closed {
+						rx = r
+						break
+					}
+				}
+				hit := -1
+				for k, tg := range targets {
+					if tg.ep == rx.ep {
+						hit = k
+					}
+				}
+				if _, member := cur[hit]; !member {
+					failf(rt, "step %d of %v: dispatch arrived at %s, which is not registered at that moment", i+1, hist, rx.where())
+				}
+				V.ClassIf(removed, "real sockets: dispatch after a removal")
+				V.ClassIf(addedAfterRemoval, "real sockets: backend added after a removal")
+				seg = append(seg, hit)
+				if k := len(cur); len(seg) >= k {
+					seen := map[int]bool{}
+					for _, h := range seg[len(seg)-k:] {
+						seen[h] = true
+					}
+					if len(seen) != k {
+						failf(rt, "step %d of %v: the last %d consecutive dispatches over %d backends went to addresses %v - not each backend exactly once", i+1, hist, k, k, seg[len(seg)-k:])
+					}
+				}
+			}
+			V.Case(hist)
+		}
+		if removed {
+			V.NonTrivial("real|" + strings.Join(hist, ""))
+		}
+		V.SampleEvery(25, func() any { return strings.Join(hist, " ") })
+		time.Sleep(200 * time.Microsecond)
+		for _, r := range hub.drain() {
+			if r.msg != nil {
+				failf(rt, "a surplus message arrived at %s after %v", r.where(), hist)
+			}
+		}
+	})
 }
 
 // c05Lab: N unpinned requests through a real listener with k UDP backends.
